@@ -1,14 +1,29 @@
 # Copyright (C) 2007-2023 Andrea Francia Trivolzio(PV) Italy
 from abc import abstractmethod, ABCMeta
 
+import os
+
 import six
 from typing import Optional
+
+from trashcli.fs import is_sticky_dir
 
 from trashcli.fstab.volume_of import VolumeOf
 from trashcli.fstab.volumes import Volumes
 from trashcli.lib.environ import Environ
 from trashcli.lib.trash_dirs import (
     volume_trash_dir1, volume_trash_dir2, home_trash_dir)
+
+
+def _is_insecure_top_trash_dir(path):
+    """
+    $topdir/.Trash/$uid must not be used when $topdir/.Trash is a symbolic
+    link, is not a directory or lacks the sticky bit (see the trash spec);
+    the other commands skip it as well.
+    """
+    parent = os.path.dirname(path)
+    return os.path.lexists(parent) and (os.path.islink(parent)
+                                        or not is_sticky_dir(parent))
 
 
 @six.add_metaclass(ABCMeta)
@@ -69,6 +84,7 @@ class TrashDirectories1:
             yield path1, volume1
         for volume in volumes_to_check:
             for path1, volume1 in volume_trash_dir1(volume, self.uid):
-                yield path1, volume1
+                if not _is_insecure_top_trash_dir(path1):
+                    yield path1, volume1
             for path1, volume1 in volume_trash_dir2(volume, self.uid):
                 yield path1, volume1
